@@ -7,7 +7,7 @@
 (***************************************************************************)
 EXTENDS PairEvents, Json, TLCExt
 
-CONSTANTS KeyLen, Base, Hosts,
+CONSTANTS KeyLen, Base, Hosts, ExplicitKeys,
           ValsA, ValsB,      \* values inserted into A / B (distinct, so that sides cannot be confused)
           ActsA, ActsB,      \* mutator alphabets
           PairActs,          \* pair observers to evaluate
@@ -18,11 +18,13 @@ VARIABLES mA, mB, absA, absB, ev, ret, histA, histB
 vars == <<mA, mB, absA, absB, ev, ret, histA, histB>>
 
 RECURSIVE BitSeqs(_)
-BitSeqs(k) == IF k = 0 THEN {<<>>}
+BitSeqs(k) == IF k <= 0 THEN {<<>>}
               ELSE LET S == BitSeqs(k - 1) IN
                    S \cup {Append(s, 0) : s \in {t \in S : Len(t) = k - 1}}
                      \cup {Append(s, 1) : s \in {t \in S : Len(t) = k - 1}}
-Keys  == {<<>>} \cup {Base \o s : s \in BitSeqs(KeyLen)}
+\* the key universe: all bit strings up to KeyLen (prefixed by Base), or -- for KeyLen < 0 -- an explicit set
+\* (e.g. a chain four levels deep with its siblings: deeper than the complete universes can afford)
+Keys  == IF KeyLen >= 0 THEN {<<>>} \cup {Base \o s : s \in BitSeqs(KeyLen)} ELSE ExplicitKeys
 Pfxs  == {Pfx(n, h) : n \in Keys, h \in Hosts}
 ZPfxs == {Pfx(n, ZeroHost) : n \in Keys}
 
